@@ -56,7 +56,11 @@ func verifCopyList(l []*Rule) []*Rule {
 }
 
 func verifValid(r *Rule) bool {
-	return r != nil && r.Rule != nil && IsValidRule(r) == nil && circuitbreaker.IsValidRule(r.Rule) == nil
+	if r == nil || r.Rule == nil {
+		return false
+	}
+	c := verifCopy(r) // a throw-away copy: the reference must not be changed by what the validity checks do to their argument
+	return IsValidRule(c) == nil && circuitbreaker.IsValidRule(c.Rule) == nil
 }
 
 func verifSame(a, b *Rule) bool {
